@@ -2368,7 +2368,7 @@ impl Residual {
         debug_assert!(rice_params.len() == 1usize << partition_order as usize);
 
         let max_quotients: usize = find_max::<64>(&quotients) as usize;
-        let sum_quotients: usize = if max_quotients * block_size < u32::MAX as usize {
+        let sum_quotients: usize = if max_quotients.saturating_mul(block_size) < u32::MAX as usize {
             // If overflow-safe, use SIMD.
             wrapping_sum::<u32, 32>(&quotients) as usize
         } else {
